@@ -9,7 +9,6 @@ type WaterSharedVars struct {
 	LIMIT  [21]float64
 	EVA    [366]float64
 	NFK    [21]float64
-	GWAUF  float64
 	EV     [21]float64
 	SATDEF float64
 }
@@ -510,7 +509,6 @@ func Evatra(l *WaterSharedVars, g *GlobalVarsMain, hPath *HFilePath, zeit int) {
 	// Wasserfluss durch die Bodenoberfläche
 	g.FLUSS0 = -l.EVA[g.TAG.Index]
 	WEFF := 0.
-	l.GWAUF = 0.
 	var WEFFREST float64
 	// ! Verteilung der Transpiration über die Tiefe abh. von Wasserverfügbarkeit und Durchwurzelungsdichte
 	// ! Inputs:
@@ -636,9 +634,6 @@ func Evatra(l *WaterSharedVars, g *GlobalVarsMain, hPath *HFilePath, zeit int) {
 				g.TP[index] = 0
 			}
 			TPAKT = TPAKT + g.TP[index]
-			if float64(i) == g.GRW {
-				l.GWAUF = g.TP[index]
-			}
 		}
 
 		if ETCP > 0 {
@@ -977,15 +972,16 @@ func Water(wdt float64, subd int, zeit int, g *GlobalVarsMain, l *WaterSharedVar
 	g.WG[1][g.N] = g.WG[1][g.N-1]
 	g.DRAISUM = g.DRAISUM + g.QDRAIN*10
 
+	// the uptake from the layer at the groundwater table is part of TP and is taken out of the layer storage
+	// like any other uptake; whatever refills the layer passes through Q1 and is counted here
 	if g.Q1[g.OUTN] > 0 {
 		g.SICKER = g.SICKER + g.Q1[g.OUTN]*10
 	} else {
 		g.CAPSUM = g.CAPSUM + g.Q1[g.OUTN]*10
 	}
-	g.CAPSUM = g.CAPSUM - l.GWAUF*10*wdt
 
 	if zeit > g.SAAT[g.AKF.Index] {
-		g.PERG = g.PERG + g.Q1[g.OUTN]*10 - l.GWAUF*10*wdt
+		g.PERG = g.PERG + g.Q1[g.OUTN]*10
 	}
 
 	if g.FLUSS0 > 0 {
